@@ -627,7 +627,7 @@ def _arr_binop(orig, ev, state, op, a, b, node):
                 z3.Implies(d > 0, z3.ForAll(
                     [i, j], z3.Implies(z3.And(_in(i, n0), _in(j, n1)),
                                        z3.And((m_at(r, i, j) > 0) == (x > 0), (m_at(r, i, j) >= 0) == (x >= 0),
-                                              z3.Implies(x <= d, m_at(r, i, j) <= 1))),
+                                              z3.Implies(x <= d, m_at(r, i, j) <= 1), m_at(r, i, j) * d == x)),
                     patterns=[m_at(r, i, j)])))
         return r
     return orig(ev, state, op, a, b, node)
@@ -847,7 +847,7 @@ def _prove_div_lemmas():
     x, y, d = z3.Reals('lem_x lem_y lem_d')
     for goal in (z3.Implies(z3.And(d > 0, x <= y), x / d <= y / d),
                  z3.Implies(d > 0, z3.And((x / d > 0) == (x > 0), (x / d >= 0) == (x >= 0))),
-                 z3.Implies(z3.And(d > 0, x <= d), x / d <= 1)):
+                 z3.Implies(z3.And(d > 0, x <= d), x / d <= 1), z3.Implies(d > 0, (x / d) * d == x)):
         s_ = z3.Solver()
         s_.set('timeout', 20000)
         s_.add(z3.Not(goal))
@@ -954,3 +954,161 @@ def s_n_markers_for(ev, state, node):
         _NMK[key] = z3.Function('n_markers_for_' + '_'.join(key).replace(' ', ''), T.sort_of(path.ty),
                                 T.sort_of(parent.ty), z3.IntSort())
     return SymVal(T.INT, _NMK[key](path.term, parent.term))
+
+
+# ---------------------------------------------------------------------------------------------
+# sums over a selection of columns (aggregate_votes: row sums are preserved)
+#
+# cols_equal(M, types, x)[i, j] = M[i, j] if types[j] == x else 0
+# cols_below(M, types, x)[i, j] = M[i, j] if types[j] <  x else 0
+#
+# Lemmas, proved by induction by z3 when the module is loaded (_prove_selection_lemmas):
+#   R  a range of zero entries does not change the fold
+#   W  the fold over the selected columns M[:, positions(types, x)] equals the fold over
+#      cols_equal(M, types, x)   (S = positions, strictly increasing and complete)
+#   A  the fold is additive:  C = A + B pointwise  =>  rs(C) = rs(A) + rs(B)
+# Their instances for the canonical terms are added as axioms (_selection_axioms).
+# ---------------------------------------------------------------------------------------------
+def _prove_selection_lemmas():
+    for ety in (T.INT, T.REAL):
+        es = _esort(ety)
+        zero = z3.IntVal(0) if ety == T.INT else z3.RealVal(0)
+        asort = z3.ArraySort(z3.IntSort(), z3.IntSort(), es)
+        rs = rs_fn(ety)
+        A, B, C, E = [z3.Const('sel_' + x, asort) for x in 'ABCE']
+        S, D = z3.Array('sel_S', z3.IntSort(), z3.IntSort()), z3.Array('sel_D', z3.IntSort(), z3.IntSort())
+        K = z3.Array('sel_K', z3.IntSort(), z3.BoolSort())
+        i, i2, i3, m, n, k, p, q, j, c, c2 = z3.Ints('sel_i sel_i2 sel_i3 sel_m sel_n sel_k sel_p sel_q sel_j sel_c sel_c2')
+
+        def R(p_, q_):
+            return z3.Implies(z3.And(0 <= p_, p_ <= q_,
+                                     z3.ForAll([j], z3.Implies(z3.And(p_ <= j, j < q_), E[i3, j] == zero))),
+                              rs(E, i3, q_) == rs(E, i3, p_))
+        H = [m >= 0, n >= 0,
+             z3.ForAll([c], z3.Implies(_in(c, m), z3.And(_in(S[c], n), K[S[c]], D[S[c]] == c))),
+             z3.ForAll([c, c2], z3.Implies(z3.And(0 <= c, c < c2, c2 < m), S[c] < S[c2])),
+             z3.ForAll([j], z3.Implies(z3.And(_in(j, n), K[j]), z3.And(_in(D[j], m), S[D[j]] == j))),
+             z3.ForAll([c], z3.Implies(_in(c, m), B[i2, c] == A[i, S[c]])),
+             z3.ForAll([j], z3.Implies(_in(j, n), E[i3, j] == z3.If(K[j], A[i, j], zero)))]
+
+        def b(k_):
+            return z3.If(k_ < m, S[k_], n)
+
+        def Q(k_):
+            return z3.Implies(z3.And(0 <= k_, k_ <= m), rs(B, i2, k_) == rs(E, i3, b(k_)))
+
+        def Ad(n_):
+            return z3.Implies(z3.ForAll([j], z3.Implies(_in(j, n_), C[i3, j] == A[i, j] + B[i2, j])),
+                              rs(C, i3, n_) == rs(A, i, n_) + rs(B, i2, n_))
+        checks = [
+            ('R base', [p >= 0], R(p, p)),
+            ('R step', [p >= 0, rs(E, i3, q + 1) == rs(E, i3, q) + E[i3, q]], z3.Implies(z3.And(q >= p, R(p, q)), R(p, q + 1))),
+            # W uses instances of R (proved above) and the defining equations of the fold
+            ('W base', H + [rs(B, i2, 0) == zero, rs(E, i3, 0) == zero, R(z3.IntVal(0), b(z3.IntVal(0)))], Q(z3.IntVal(0))),
+            ('W step', H + [rs(B, i2, k + 1) == rs(B, i2, k) + B[i2, k],
+                            rs(E, i3, S[k] + 1) == rs(E, i3, S[k]) + E[i3, S[k]], R(S[k] + 1, b(k + 1))],
+             z3.Implies(z3.And(k >= 0, Q(k)), Q(k + 1))),
+            ('A base', [rs(C, i3, 0) == zero, rs(A, i, 0) == zero, rs(B, i2, 0) == zero], Ad(z3.IntVal(0))),
+            ('A step', [rs(X, r, n + 1) == rs(X, r, n) + X[r, n] for X, r in ((C, i3), (A, i), (B, i2))],
+             z3.Implies(z3.And(n >= 0, Ad(n)), Ad(n + 1))),
+        ]
+        for name, hyps, goal in checks:
+            s = z3.Solver()
+            s.set('timeout', 30000)
+            s.add(*hyps)
+            s.add(z3.Not(goal))
+            if s.check() != z3.unsat:
+                raise RuntimeError(f"pyvc.ext.election: selection lemma {name} ({ety[0]}) not proved")
+
+
+_prove_selection_lemmas()
+
+
+def _masked_cols(ev, m, types, x, kind):
+    """cols_equal / cols_below as canonical terms with their (global, guarded) axioms"""
+    ety, kt = m.ty[1], types.ty[1]
+    if m.ty[0] != 'arr2' or ety not in (T.INT, T.REAL) or not _is_seq(types) or kt not in (T.INT, T.NAME):
+        raise Unsupported("cols_equal / cols_below operands")
+    aty, ity = T.TArr(kt), T.TArr(T.INT)
+    x = coerce(x, kt)
+    r = canon(m.ty, f'cols_{kind}_{ety[0]}_{kt[0]}', m.term, types.term, x.term)
+    # make sure the companion terms (and their axioms) exist
+    ce = canon(m.ty, f'cols_equal_{ety[0]}_{kt[0]}', m.term, types.term, x.term)
+    cb = canon(m.ty, f'cols_below_{ety[0]}_{kt[0]}', m.term, types.term, x.term)
+    pos = positions_of(ev, SymVal(aty, types.term), x)
+    sel = colsel_of(ev, m, pos)
+    _rs_axioms(ev.ctx, ety)
+    if _once(ev.ctx, f'masked_cols_{ety[0]}_{kt[0]}'):
+        fe, fb, fp, fs = ce.term.decl(), cb.term.decl(), pos.term.decl(), sel.term.decl()
+        rs = rs_fn(ety)
+        zero = z3.IntVal(0) if ety == T.INT else z3.RealVal(0)
+        Mv = z3.Const(f'mcM_{ety[0]}{kt[0]}', T.sort_of(m.ty))
+        Tv = z3.Const(f'mcT_{ety[0]}{kt[0]}', T.sort_of(aty))
+        xv, yv = z3.Const(f'mcx_{ety[0]}{kt[0]}', T.sort_of(kt)), z3.Const(f'mcy_{ety[0]}{kt[0]}', T.sort_of(kt))
+        i, j = z3.Int(f'mci_{ety[0]}{kt[0]}'), z3.Int(f'mcj_{ety[0]}{kt[0]}')
+        mv, tv = SymVal(m.ty, Mv), SymVal(aty, Tv)
+        n0, n1 = m_n0(mv), m_n1(mv)
+        wf_ = z3.And(n0 >= 0, n1 >= 0, seq_len(tv) == n1)
+        ax = ev.ctx.axioms
+        for f, cond in ((fe, lambda jj, v: seq_at(tv, jj) == v), (fb, lambda jj, v: seq_at(tv, jj) < v)):
+            rv = SymVal(m.ty, f(Mv, Tv, xv))
+            ax.append(z3.ForAll([Mv, Tv, xv], z3.Implies(wf_, z3.And(m_n0(rv) == n0, m_n1(rv) == n1)),
+                                patterns=[f(Mv, Tv, xv)]))
+            ax.append(z3.ForAll([Mv, Tv, xv, i, j], z3.Implies(
+                z3.And(wf_, _in(i, n0), _in(j, n1)),
+                m_at(rv, i, j) == z3.If(cond(j, xv), m_at(mv, i, j), zero)), patterns=[m_at(rv, i, j)]))
+        at = lambda t: T.acc(m.ty, 'at')(t)
+        ex, bx, by = fe(Mv, Tv, xv), fb(Mv, Tv, xv), fb(Mv, Tv, yv)
+        px = fp(Tv, xv)
+        sx = fs(Mv, px)
+        # lemma W for S = positions(types, x), B = M[:, S], E = cols_equal(M, types, x)
+        ax.append(z3.ForAll([Mv, Tv, xv, i], z3.Implies(
+            z3.And(wf_, _in(i, n0)),
+            rs(at(sx), i, T.acc(ity, 'len')(px)) == rs(at(ex), i, n1)),
+            patterns=[rs(at(ex), i, n1), rs(at(sx), i, T.acc(ity, 'len')(px))]))
+        # lemma A: cols_below(y) = cols_below(x) + cols_equal(x) pointwise  =>  same for the folds
+        ax.append(z3.ForAll([Mv, Tv, xv, yv, i], z3.Implies(
+            z3.And(wf_, _in(i, n0),
+                   z3.ForAll([j], z3.Implies(_in(j, n1), at(by)[i, j] == at(bx)[i, j] + at(ex)[i, j]))),
+            rs(at(by), i, n1) == rs(at(bx), i, n1) + rs(at(ex), i, n1)),
+            patterns=[z3.MultiPattern(rs(at(by), i, n1), rs(at(bx), i, n1))]))
+        # lemma A: M = cols_below(x) + cols_equal(x) pointwise  =>  same for the folds
+        ax.append(z3.ForAll([Mv, Tv, xv, i], z3.Implies(
+            z3.And(wf_, _in(i, n0),
+                   z3.ForAll([j], z3.Implies(_in(j, n1), at(Mv)[i, j] == at(bx)[i, j] + at(ex)[i, j]))),
+            rs(at(Mv), i, n1) == rs(at(bx), i, n1) + rs(at(ex), i, n1)),
+            patterns=[z3.MultiPattern(rs(at(Mv), i, n1), rs(at(bx), i, n1))]))
+    return r
+
+
+def _cols_native(kind):
+    def f(m, types, x):
+        import numpy as np
+        m = np.asarray(m)
+        t = np.asarray(list(types), dtype=object)
+        mask = np.array([(tt == x) if kind == 'equal' else (tt < x) for tt in t], dtype=bool)
+        out = np.zeros_like(m)
+        if m.shape[1]:
+            out[:, mask] = m[:, mask]
+        return out
+    return f
+
+
+@P.spec_function('cols_equal', native=_cols_native('equal'))
+def s_cols_equal(ev, state, node):
+    m, types, x = [ev.eval(state, a) for a in node.args]
+    return _masked_cols(ev, m, types, x, 'equal')
+
+
+@P.spec_function('cols_below', native=_cols_native('below'))
+def s_cols_below(ev, state, node):
+    m, types, x = [ev.eval(state, a) for a in node.args]
+    return _masked_cols(ev, m, types, x, 'below')
+
+
+@P.spec_function('whole', native=lambda x: abs(float(x) - round(float(x))) < 1e-9)
+def s_whole(ev, state, node):
+    """x is a whole number"""
+    x = to_real(ev.eval(state, node.args[0]))
+    k = z3.Int(fresh_name('whole'))
+    return SymVal(T.BOOL, z3.Exists([k], x == z3.ToReal(k)))
